@@ -221,7 +221,10 @@ func reifyMap(opts *options, to reflect.Value, from *Config, validators []valida
 		if !old.IsValid() {
 			v, err = reifyValue(fieldOptions{opts: opts}, to.Type().Elem(), value)
 		} else {
-			v, err = reifyMergeValue(fieldOptions{opts: opts}, old, value)
+			// map elements are not addressable: merge into a copy
+			tmp := reflect.New(old.Type()).Elem()
+			tmp.Set(old)
+			v, err = reifyMergeValue(fieldOptions{opts: opts}, tmp, value)
 		}
 
 		if err != nil {
